@@ -17,7 +17,7 @@ var Classes = map[string][]string{
 	"%PSEP":   {"\n", ";", " ; ", "\r\n", " # c\n", "\n\n", "; ", "#c\n"},
 	"%PIPE":   {"|", " | ", "|\n", " |\n  ", "| # c\n"},
 	"%BG":     {" &", "&", " & "},
-	"%CMD":    {"echo", "put", "e:ls", "+", "nop", "x:f~", "^", "<", "a>b", "*"},
+	"%CMD":    {"echo", "put", "e:ls", "+", "nop", "x:f~", "<", "a>b", "*", "a^"},
 	"%KEY":    {"k", "key-1", "'a b'", "$k", "k2"},
 	"%RSIGN":  {">", "<", ">>", "<>"},
 	"%FD":     {"2", "1", "0", "10", "$f"},
